@@ -49,8 +49,6 @@ func c15HTTP(c *Ctx, pxs []*c15Proxier) {
 				// it must be written to the other leg
 				written := false
 				bad := ""
-				derived := map[ssa.Value]bool{obj: true}
-				work := []ssa.Value{obj}
 				refType := func(t types.Type) bool {
 					switch t.Underlying().(type) {
 					case *types.Pointer, *types.Map, *types.Slice, *types.Interface:
@@ -58,59 +56,77 @@ func c15HTTP(c *Ctx, pxs []*c15Proxier) {
 					}
 					return false
 				}
-				for len(work) > 0 {
-					v := work[0]
-					work = work[1:]
-					if v.Referrers() == nil {
-						continue
-					}
-					for _, r := range *v.Referrers() {
-						switch x := r.(type) {
-						case *ssa.FieldAddr:
-							for _, r2 := range *x.Referrers() {
-								switch y := r2.(type) {
-								case *ssa.Store:
-									if y.Addr == ssa.Value(x) {
-										bad = "field " + fieldNameOf(x) + " of the parsed " + what + " is overwritten at " + p.InstrPos(y)
+				var walk func(root ssa.Value, depth int)
+				walk = func(root ssa.Value, depth int) {
+					derived := map[ssa.Value]bool{root: true}
+					work := []ssa.Value{root}
+					for len(work) > 0 {
+						v := work[0]
+						work = work[1:]
+						if v.Referrers() == nil {
+							continue
+						}
+						for _, r := range *v.Referrers() {
+							switch x := r.(type) {
+							case *ssa.FieldAddr:
+								for _, r2 := range *x.Referrers() {
+									switch y := r2.(type) {
+									case *ssa.Store:
+										if y.Addr == ssa.Value(x) {
+											bad = "field " + fieldNameOf(x) + " of the parsed " + what + " is overwritten at " + p.InstrPos(y)
+										}
+									case *ssa.UnOp:
+										if y.Op == token.MUL && refType(y.Type()) && !derived[y] {
+											derived[y] = true
+											work = append(work, y)
+										}
 									}
-								case *ssa.UnOp:
-									if y.Op == token.MUL && refType(y.Type()) && !derived[y] {
-										derived[y] = true
-										work = append(work, y)
+								}
+							case *ssa.IndexAddr:
+								for _, r2 := range *x.Referrers() {
+									if y, ok := r2.(*ssa.Store); ok && y.Addr == ssa.Value(x) {
+										bad = "an element of the parsed " + what + " is overwritten at " + p.InstrPos(y)
 									}
 								}
-							}
-						case *ssa.IndexAddr:
-							for _, r2 := range *x.Referrers() {
-								if y, ok := r2.(*ssa.Store); ok && y.Addr == ssa.Value(x) {
-									bad = "an element of the parsed " + what + " is overwritten at " + p.InstrPos(y)
+							case *ssa.MapUpdate:
+								if x.Map == v {
+									bad = "a header map of the parsed " + what + " is updated at " + p.InstrPos(x)
 								}
-							}
-						case *ssa.MapUpdate:
-							if x.Map == v {
-								bad = "a header map of the parsed " + what + " is updated at " + p.InstrPos(x)
-							}
-						case ssa.CallInstruction:
-							cc := x.Common()
-							f := cc.StaticCallee()
-							switch {
-							case cc.IsInvoke() && cc.Value == v:
-								if c15HTTPMutators[cc.Method.Name()] {
-									bad = "the parsed " + what + "'s body is consumed or closed (" + cc.Method.Name() + ") at " + p.InstrPos(x)
+							case ssa.CallInstruction:
+								cc := x.Common()
+								f := cc.StaticCallee()
+								switch {
+								case cc.IsInvoke() && cc.Value == v:
+									if c15HTTPMutators[cc.Method.Name()] {
+										bad = "the parsed " + what + "'s body is consumed or closed (" + cc.Method.Name() + ") at " + p.InstrPos(x)
+									}
+								case f == nil:
+									bad = "the parsed " + what + " escapes to a dynamic call at " + p.InstrPos(x)
+								case PkgOf(f) == "net/http" && f.Name() == "Write" && v == obj && len(cc.Args) == 2 && cc.Args[0] == obj:
+									written = true
+								case PkgOf(f) == "net/http" && f.Name() == "ReadResponse":
+								case InRepo(f) && PkgOf(f) != ModPath+"/event":
+									// a helper of the proxy that is handed the object: looked into (it may only read it)
+									looked := false
+									if f.Blocks != nil && depth < 2 {
+										for ai, a := range cc.Args {
+											if a == v && ai < len(f.Params) {
+												looked = true
+												walk(f.Params[ai], depth+1)
+											}
+										}
+									}
+									if !looked {
+										bad = "the parsed " + what + " is handed to " + FuncShort(f) + " at " + p.InstrPos(x) + ", which may modify it before it is relayed"
+									}
+								case c15HTTPMutators[f.Name()] && len(cc.Args) > 0 && cc.Args[0] == v:
+									bad = "the parsed " + what + " is modified by " + FuncShort(f) + " at " + p.InstrPos(x)
 								}
-							case f == nil:
-								bad = "the parsed " + what + " escapes to a dynamic call at " + p.InstrPos(x)
-							case PkgOf(f) == "net/http" && f.Name() == "Write" && v == obj && len(cc.Args) == 2 && cc.Args[0] == obj:
-								written = true
-							case PkgOf(f) == "net/http" && f.Name() == "ReadResponse":
-							case InRepo(f) && PkgOf(f) != ModPath+"/event":
-								bad = "the parsed " + what + " is handed to " + FuncShort(f) + " at " + p.InstrPos(x) + ", which may modify it before it is relayed"
-							case c15HTTPMutators[f.Name()] && len(cc.Args) > 0 && cc.Args[0] == v:
-								bad = "the parsed " + what + " is modified by " + FuncShort(f) + " at " + p.InstrPos(x)
 							}
 						}
 					}
 				}
+				walk(obj, 0)
 				switch {
 				case bad != "":
 					c.Violate("http-object-unmodified", key, p.InstrPos(call), bad+": the backend (or client) no longer receives what the peer sent")
